@@ -234,7 +234,7 @@ func TestC10StructuredLE(t *testing.T) {
 			continue
 		}
 		t.Run(e.Name, func(t *testing.T) {
-			n := vlib.N(400, 4000) / max(1, e.Cost)
+			n := vlib.N(400, 3000) / max(1, e.Cost)
 			vlib.Check(t, n, func(t *rapid.T) {
 				vi := rapid.IntRange(0, max(1, e.NValid)-1).Draw(t, "vi")
 				kind, in := leMutate(t, e.Name, vi, e.Valid(vi))
@@ -717,7 +717,7 @@ func TestC10PolicyStrings(t *testing.T) {
 		t.Skip("no policy entry")
 	}
 	defer vlib.Done()
-	vlib.Check(t, vlib.N(600, 6000), func(t *rapid.T) {
+	vlib.Check(t, vlib.N(400, 3000), func(t *rapid.T) {
 		s := rapid.SampledFrom(tknPolicyStrings).Draw(t, "seed")
 		kind, m := mutatePolicy(t, s)
 		if rapid.IntRange(0, 3).Draw(t, "twice") == 0 {
